@@ -45,6 +45,54 @@ class OSet(dict):
     def remove(self, x):
         del self[x]
 
+    # the rest of the `set` interface (a source change may use any of it: that must not look like a property violation)
+    def discard(self, x):
+        self.pop(x, None)
+
+    def difference_update(self, xs):
+        for x in list(xs):
+            self.pop(x, None)
+
+    def __isub__(self, xs):
+        self.difference_update(xs)
+        return self
+
+    def __ior__(self, xs):
+        self.update(xs)
+        return self
+
+    def __or__(self, xs):
+        r = OSet(self)
+        r.update(xs)
+        return r
+
+    def __sub__(self, xs):
+        r = OSet(self)
+        r.difference_update(xs)
+        return r
+
+    def union(self, *xss):
+        r = OSet(self)
+        for xs in xss:
+            r.update(xs)
+        return r
+
+    def difference(self, *xss):
+        r = OSet(self)
+        for xs in xss:
+            r.difference_update(xs)
+        return r
+
+    def intersection(self, xs):
+        xs = set(xs)
+        return OSet((x, None) for x in self if x in xs)
+
+    def issubset(self, xs):
+        return all(x in xs for x in self)
+
+    def copy(self):
+        return OSet(self)
+
 
 class NullLock(Lock):
     def _acquire(self):
